@@ -19,6 +19,13 @@ import numpy as np
 _REPO = os.environ.get("VERIF_REPO", "/repo")
 if _REPO not in sys.path:
     sys.path.insert(0, _REPO)
+# netCDF4 is absent from the sandbox: a documented stand-in (harness/ncstub) is put on the path for dimarray.io.nc
+_NCSTUB = os.path.join(os.path.dirname(os.path.abspath(__file__)), "ncstub")
+try:
+    import netCDF4 as _real_nc  # noqa: F401
+except ImportError:
+    if _NCSTUB not in sys.path:
+        sys.path.insert(0, _NCSTUB)
 import warnings
 warnings.filterwarnings("ignore")
 import dimarray as da  # noqa: E402
